@@ -436,6 +436,37 @@ def rule_wps_writers(ctx, m, affinity=False, tier='quick'):
                       'region %s must cover rows [%s, %s); found [%s, %s)' % (R.name, sym.show(wl), sym.show(wh), sym.show(R.lo), sym.show(R.hi)), R.loop.line)
         # row bases: initial values 0 / p.width, closing pair in every region, nothing else
         e0 = info['prologue_env']
+        if not affinity:
+            # PrunedDTW vs psi-relaxation (same two obligations as for the rolling kernels, kern._prune_vs_psi)
+            eci = e0.get('ec')
+            okec = eci is not None and any(x == ('attr', ('var', 'settings'), 'psi_2b') for x in walk_expr(eci))
+            ctx.check(okec, 'R-PRUNE', f.file, fname, 'initial end column vs psi_2b',
+                      'pruning starts with end column ec = %s, but with psi_2b > 0 the first row has free starts up to column psi_2b: if cell (0, 0) exceeds max_dist the row is '
+                      'abandoned before those cells are computed, and the pruned result differs from the unpruned one' % (fmt(eci) if eci is not None else None), f.line,
+                      facts={'witness': {'PSI2B': 1}})
+            for R in regs[:2]:
+                guards = ' '.join(fmt(c) for s_, e_, path in R.skip_loops for c in path)
+                okfree = bool(R.skip_loops)
+                for s_, e_, path in R.skip_loops:
+                    # value of the start column that the skip loop uses, as a term over (ri, psi_1b, carried sc)
+                    def atom(x):
+                        if x == ('var', 'ri'):
+                            return 'ri'
+                        if x == ('attr', ('var', 'settings'), 'psi_1b'):
+                            return 'PSI1B'
+                        if x[0] == 'var' and x[1].startswith('sc'):
+                            return 'SC'
+                        return None
+                    try:
+                        t = sym.from_ir(subst_expr(s_.hi, e_), atom=atom)
+                        vals = [sym.evaluate(t, {'ri': r_, 'PSI1B': 2, 'SC': 1}) for r_ in (1, 2)]
+                    except Exception:  # noqa
+                        vals = [None]
+                    okfree = okfree and vals == [0, 0]
+                ctx.check(okfree, 'R-PRUNE', R.file, fname, 'region %s start column on free-start rows' % R.name,
+                          'rows ri < psi_1b may start for free in column 0 (their first position is preset to 0), but the carried start column sc is applied to them '
+                          'unconditionally (skip guarded by `%s`): the free start is skipped and the pruned result differs from the unpruned one' % guards[:80], R.loop.line,
+                          facts={'witness': {'PSI1B': 2, 'ri': 1, 'sc': 1}})
         rb, pb = regs[0].rowbase, regs[0].prevbase
         ok0 = e0.get(pb) == ('num', 0) and e0.get(rb) == ('attr', ('var', 'p'), 'width')
         okp = True
@@ -1309,6 +1340,16 @@ def rule_wps_readers(ctx, m, affinity=False):
             _report(ctx, r, 'R-MAP', RR.file, fname, 'region %s map' % WR.name, inst,
                     'in region %s, %s reads position q of a row as column q + (%s) while the writer stored column q + (%s) there'
                     % (WR.name, fname, sym.show(d_reader)[:80], sym.show(WR.delta)[:80]), RR.loop.line)
+            # (iv) readers that must see the whole row (maximum search, cell location) scan exactly the writer's band [c0, hi) of that row
+            if fname in ('dtw_wps_max', 'dtw_wps_loc'):
+                wfirst = sym.subst(WR.c0, {'ri': dprow})
+                # the scan may begin at the filler / border cell in front of the band (position 0 of the row), never after the first in-band column
+                for nm, rd, wr in (('first', tmax(sub(RR.c_init, co), wfirst), wfirst), ('end', sub(RR.hi_col, co), sym.subst(WR.hi_col, {'ri': dprow}))):
+                    r = decide_equal(pdefs, rd, wr, guards, extra_atoms=('ri',) + extra, box=box)
+                    inst = '%s region %s %s column' % (fname, WR.name, nm)
+                    _report(ctx, r, 'R-MAP', RR.file, fname, 'region %s %s column' % (WR.name, nm), inst,
+                            'in region %s the %s column scanned by %s (%s) differs from the %s in-band column the writer fills (%s): in-band cells are never visited'
+                            % (WR.name, nm, fname, sym.show(rd)[:70], nm, sym.show(wr)[:70]), RR.loop.line)
             # (iii) the row base addresses buffer row (DP row + 1)
             if RR.access is not None and RR.access[0] == 'lin':
                 co_ = dict(RR.access[1])
